@@ -24,17 +24,24 @@ theorem denote_fromXfe (c : K × K × K) :
 
 /-! ### `truncate` with `usize` arithmetic -/
 
-theorem truncateUsize_eq (p : List K) (k : Nat) (h : k + 1 < 2 ^ 64) :
+/-- after the repair F13: for every polynomial with fewer than `2^64` coefficients and EVERY `k` -/
+theorem truncateUsize_eq (p : List K) (k : Nat) (h : (normalize FK p).length < 2 ^ 64) :
     truncateUsize FK p k = truncate FK p k := by
   unfold truncateUsize truncate USIZE_MOD
-  rw [Nat.mod_eq_of_lt h]
+  by_cases hk : k + 1 ≤ 2 ^ 64 - 1
+  · rw [Nat.min_eq_left hk]
+  · simp only
+    rw [Nat.min_eq_right (by omega)]
+    have e1 : (normalize FK p).length - (2 ^ 64 - 1) = 0 := by omega
+    have e2 : (normalize FK p).length - (k + 1) = 0 := by omega
+    rw [e1, e2]
 
 theorem truncateUsize_congr {a a' : List K} (h : denote a = denote a') (k : Nat) :
     truncateUsize FK a k = truncateUsize FK a' k := by
   unfold truncateUsize; rw [normalize_congr root h]
 
-theorem truncateUsize_max (p : List K) : truncateUsize FK p (2 ^ 64 - 1) = [] := by
-  unfold truncateUsize USIZE_MOD
+theorem truncateBeforeF13_max (p : List K) : truncateBeforeF13 FK p (2 ^ 64 - 1) = [] := by
+  unfold truncateBeforeF13 USIZE_MOD
   have : (2 ^ 64 - 1 + 1) % 2 ^ 64 = 0 := by norm_num
   rw [this]; simp
 
